@@ -81,7 +81,8 @@ AllEntries == <<
   \* live endpoints
   E("ice_udp", "endpoint", Conn, StunTpls \cup {"turn.channeldata", "rtp.plain", "rtcp.rr", "dg.opaque"}),
   E("turn_udp", "endpoint", <<"pre", "est", "closing">>, {"stun.alloc_ok", "stun.error401", "stun.data_ind", "turn.channeldata"}),
-  E("turn_tcp", "endpoint", <<"pre", "est", "closing">>, {"tcp.stun_data_ind", "tcp.channeldata", "tcp.stun_binding_req"}),
+  \* RFC 5766 framing: STUN and ChannelData messages follow each other on the stream, delimited by their own length fields
+  E("turn_tcp", "endpoint", <<"pre", "est", "closing">>, {"stun.alloc_ok", "stun.error401", "stun.data_ind", "turn.channeldata", "stun.binding_req"}),
   E("ice_tcp", "endpoint", <<"pre", "est">>, {"tcp.stun_binding_req"}),
   E("dtls_server", "endpoint", Conn, DgTpls),
   E("dtls_client", "endpoint", Conn, DgTpls),
@@ -172,7 +173,7 @@ Crashes(e, t, l, m) ==
   \/ /\ "EmptyTurnData" \in Deviations
      /\ e \in {"turn_udp", "turn_tcp"} /\ l.n \in {"data.v", "data"} /\ m = "empty"
   \/ /\ "TurnTcpFrameLength" \in Deviations
-     /\ e = "turn_tcp" /\ l.n = "framelen" /\ m \in {"len_max"}
+     /\ e = "turn_tcp" /\ l.n = "length" /\ m \in {"len_max"}      \* the length that delimits the message on the stream
   \/ /\ "MidPlusOneOverflows" \in Deviations
      /\ e = "pc_sdp" /\ l.n = "mid" /\ m = "len_max"
   \/ /\ "StapAAmplifies" \in Deviations
